@@ -158,6 +158,8 @@ func (g *c11Gen) mk(kind int, fam bgp.Family, p *c11Pfx, set *c11AttrSet, nh c11
 		if r.IntN(4) == 0 {
 			c.shape += 2
 		}
+		// (kept apart from VPN routes with two next hops so that violation keys name one input class)
+		c.prepend = r.IntN(6) == 0 && !(c11IsVPN(fam) && len(nh.nhs) == 2)
 	}
 	if g.cs.forcedHash {
 		c.hash = 0xC11C11C11
@@ -394,7 +396,7 @@ func (g *c11Gen) genFill() {
 	}
 	for i := 1; sum < want && i < 60000; i++ {
 		c := g.mk(kind, fam, mkp(i), set, nh)
-		c.shape = first.shape
+		c.shape, c.prepend = first.shape, first.prepend
 		if c11IsLabel(fam) && len(c.labels) != len(first.labels) {
 			c.labels = c.labels[:1]
 			if len(first.labels) == 2 {
@@ -564,7 +566,7 @@ func (c *c11Change) desc() string {
 		s += fmt.Sprintf(" labels=%v", c.labels)
 	}
 	if c.set != nil {
-		s += fmt.Sprintf(" nh=%v nhmode=%d attrs=%dB#%s shape=%d", c.nhs, c.nhMode, c.set.hi, vlib.Hash(c.set.canon), c.shape)
+		s += fmt.Sprintf(" nh=%v nhmode=%d attrs=%dB#%s shape=%d prepend=%v", c.nhs, c.nhMode, c.set.hi, vlib.Hash(c.set.canon), c.shape, c.prepend)
 	}
 	return s
 }
@@ -749,6 +751,14 @@ func c11Run(rec *vlib.Rec, r *rand.Rand, cs *c11Case, idx int) {
 		}
 	}
 
+	msgPrepend := make([]bool, len(msgs)) // the message carries a route whose AS_PATH went through PrependAsn
+	for _, c := range cs.changes {
+		if c.prepend && c.kind == c11Announce {
+			if mi, ok := where[c.nl]; ok {
+				msgPrepend[mi] = true
+			}
+		}
+	}
 	addpath := func(fam uint32) bool { return cs.apOn(bgp.Family(fam)) }
 	failed := make([]int, len(msgs)) // 0 sent, else the size the dropped message would have had
 	nearMsg, sent := false, 0
@@ -890,8 +900,11 @@ func c11Run(rec *vlib.Rec, r *rand.Rand, cs *c11Case, idx int) {
 		switch {
 		case lost && emitted && failed[mi] != 0:
 			in := "other"
-			if c11IsVPN(c.fam) && len(c.nhs) == 2 {
+			switch {
+			case c11IsVPN(c.fam) && len(c.nhs) == 2:
 				in = "vpn+linklocal-nexthop" // RD counted once in MP_REACH Len(), written twice
+			case msgPrepend[mi]:
+				in = "aspath-prepended" // PrependAsn leaves a stale header length in the AS_PATH attribute
 			}
 			viol("c11:oversize-message-drops-fitting-routes:"+cls+":"+in,
 				fmt.Sprintf("%s fits a message alone but was packed into message %d of %d octets (limit %d), which Serialize refuses: the route is lost", c.desc(), mi, failed[mi], cs.limit), ex)
@@ -972,6 +985,9 @@ func c11Run(rec *vlib.Rec, r *rand.Rand, cs *c11Case, idx int) {
 			}
 			if c.shape >= 2 {
 				nhk["paths_derived_by_clone"]++
+			}
+			if c.prepend {
+				nhk["paths_with_prepended_as"]++
 			}
 		}
 	}
